@@ -1,0 +1,16 @@
+//go:build verif
+
+package payload
+
+import "github.com/arm-doe/sts"
+
+// Exports for the verification harness in /verif (build tag "verif" only).
+
+// VerifBinState returns the unexported counters of a Bin (ok=false if p is not a *Bin).
+func VerifBinState(p sts.Payload) (capacity, fluff, bytes int64, ok bool) {
+	b, ok := p.(*Bin)
+	if !ok || b == nil {
+		return 0, 0, 0, false
+	}
+	return b.capacity, b.fluff, b.bytes, true
+}
